@@ -511,8 +511,7 @@ Proof.
            [exq 1] [exq 1] exX
            (map (map (fun z => mkdq z (-1) 1)) [[2; 0]; [-2; 0]; [2; 0]; [-2; 0]; [0; 0]]%Z)
            (map (map (fun z => mkdq z (-1) 1)) [[2]; [-2]; [2]; [-2]; [0]]%Z)); auto.
-  - simpl. repeat split; auto; lra.
-  - repeat constructor.
+  simpl. repeat split; auto; lra.
 Qed.
 
 (* scores with the wrong variance (here: doubled) are refused by the score-covariance conjunct *)
